@@ -20,16 +20,18 @@ Print Assumptions C15_parse_link.
 Theorem C15_exactly_once :
   forall (L : list item) (cap : nat) (ds : nat -> decision)
          (render : nat -> url -> url -> str) (trailer : nat -> str)
-         (resolve : url -> str -> option url) (c : cfg) (path last0 : str) (fuel : nat),
+         (resolve : url -> str -> option url) (c : cfg) (cu : cursor) (npath : nat -> str -> str)
+         (path last0 : str) (fuel : nat),
+    cursor_ok cu ->
     c_kind c <> KReferrers ->
     NoDup (map fst L) -> (forall it, In it L -> fst it <> []) ->
     (forall i base x, In x (map fst L) ->
-       contains c_gt (render i base (link_target (ds i) base x)) = false) ->
+       contains c_gt (render i base (link_target ds cu npath i base x)) = false) ->
     (forall i base x, In x (map fst L) ->
-       resolve base (render i base (link_target (ds i) base x)) = Some (link_target (ds i) base x)) ->
+       resolve base (render i base (link_target ds cu npath i base x)) = Some (link_target ds cu npath i base x)) ->
     (forall i, (Z.of_N (d_doc_len (ds i)) <= eff_limit (c_limit c))%Z) ->
     (length (after last0 L) < fuel)%nat ->
-    let t := loop (reg_serve (c_kind c) L cap ds render trailer) resolve (fun _ => false) c
+    let t := loop (reg_serve (c_kind c) cu npath L cap ds render trailer) resolve (fun _ => false) c
                   fuel 0 0 (mkUrl path []) last0 in
     t_out t = Done /\
     concat (t_pages t) = after last0 L /\
@@ -44,17 +46,19 @@ Print Assumptions C15_exactly_once.
 Theorem C15_filter :
   forall (L : list item) (cap : nat) (ds : nat -> decision)
          (render : nat -> url -> url -> str) (trailer : nat -> str)
-         (resolve : url -> str -> option url) (c : cfg) (path : str) (fuel : nat),
+         (resolve : url -> str -> option url) (c : cfg) (cu : cursor) (npath : nat -> str -> str)
+         (path : str) (fuel : nat),
+    cursor_ok cu ->
     c_kind c = KReferrers ->
     NoDup (map fst L) -> (forall it, In it L -> fst it <> []) ->
     (forall i base x, In x (map fst L) ->
-       contains c_gt (render i base (link_target (ds i) base x)) = false) ->
+       contains c_gt (render i base (link_target ds cu npath i base x)) = false) ->
     (forall i base x, In x (map fst L) ->
-       resolve base (render i base (link_target (ds i) base x)) = Some (link_target (ds i) base x)) ->
+       resolve base (render i base (link_target ds cu npath i base x)) = Some (link_target ds cu npath i base x)) ->
     (forall i, (Z.of_N (d_doc_len (ds i)) <= eff_limit (c_limit c))%Z) ->
     (forall i, qget k_at (d_extra (ds i)) = None) ->
     (length L < fuel)%nat ->
-    let t := loop (reg_serve KReferrers L cap ds render trailer) resolve (fun _ => false) c
+    let t := loop (reg_serve KReferrers cu npath L cap ds render trailer) resolve (fun _ => false) c
                   fuel 0 0 (mkUrl path (referrers_query (c_at c))) [] in
     t_out t = Done /\
     concat (t_pages t) = filter_referrers L (c_at c) /\
@@ -64,16 +68,8 @@ Print Assumptions C15_filter.
 
 (* ---------- the hypotheses are satisfiable: a concrete registry and a toy net/url ---------- *)
 
-Definition ex_L : list item := [(b "a", b "t1"); (b "b", b "t2"); (b "c", b "t1"); (b "d", b "t1")].
-Definition ex_ds (i : nat) : decision :=
-  mkDec (1 + Nat.modulo i 2) [(b "x", VS (b "1"))] (Nat.even i) [] (if Nat.even i then [] else b "foo,artifactType") 10 1.
-(* link text = the cursor; the toy resolver rebuilds the target from it *)
-Definition ex_render (i : nat) (base tgt : url) : str := qget_s k_last (u_query tgt).
-Definition ex_resolve (base : url) (t : str) : option url := Some (link_target (ex_ds 0) base t).
-Definition ex_cfg (k : kind) : cfg := mkCfg k 3 100 (b "t1").
-
 Example C15_example_tags :
-  let t := loop (reg_serve KTags ex_L 2 ex_ds ex_render (fun _ => b "; rel=""next""")) ex_resolve
+  let t := loop (reg_serve KTags CLast (fun _ p => p) ex_L 2 ex_ds ex_render (fun _ => b "; rel=""next""")) ex_resolve
                 (fun _ => false) (ex_cfg KTags) 5 0 0 (mkUrl (b "/v2/r/tags/list") []) (b "a") in
   t_out t = Done /\ map fst (concat (t_pages t)) = [b "b"; b "c"; b "d"] /\ length (t_reqs t) = 2%nat.
 Proof. vm_compute. repeat split. Qed.
@@ -81,24 +77,31 @@ Proof. vm_compute. repeat split. Qed.
 Example C15_example_hypotheses :
   NoDup (map fst ex_L) /\ (forall it, In it ex_L -> fst it <> []) /\
   (forall i base x, In x (map fst ex_L) ->
-     contains c_gt (ex_render i base (link_target (ex_ds i) base x)) = false) /\
+     contains c_gt (ex_render i base (link_target ex_ds CLast (fun _ p => p) i base x)) = false) /\
   (forall i base x, In x (map fst ex_L) ->
-     ex_resolve base (ex_render i base (link_target (ex_ds i) base x)) = Some (link_target (ex_ds i) base x)) /\
+     ex_resolve base (ex_render i base (link_target ex_ds CLast (fun _ p => p) i base x)) = Some (link_target ex_ds CLast (fun _ p => p) i base x)) /\
   (forall i, (Z.of_N (d_doc_len (ex_ds i)) <= eff_limit (c_limit (ex_cfg KTags)))%Z) /\
   (forall i, qget k_at (d_extra (ex_ds i)) = None).
-Proof.
-  split. { repeat constructor; simpl; intuition discriminate. }
-  split. { simpl. intros it H. repeat (destruct H as [<-|H]; [discriminate|]). contradiction. }
-  split. { intros i base x H. unfold ex_render, link_target, qget_s. cbn [u_query qget]. rewrite str_eqb_refl.
-           simpl in H. repeat (destruct H as [<-|H]; [reflexivity|]). contradiction. }
-  split. { intros i base x _. unfold ex_resolve, ex_render, link_target, qget_s. cbn [u_query qget].
-           rewrite str_eqb_refl. reflexivity. }
-  split. { intro i. vm_compute. discriminate. }
-  intro i. reflexivity.
-Qed.
+Proof. exact example_hypotheses. Qed.
+
+(* the same registry paging with an opaque cursor "token=p;<name>" on another path *)
+Example C15_example_token_cursor :
+  let t := loop (reg_serve KTags ex_cu ex_npath ex_L 2 ex_ds ex_render_tok (fun _ => [])) ex_resolve_tok
+                (fun _ => false) (ex_cfg KTags) 5 0 0 (mkUrl (b "/v2/r/tags/list") []) (b "a") in
+  t_out t = Done /\ map fst (concat (t_pages t)) = [b "b"; b "c"; b "d"] /\
+  map u_path (t_reqs t) = [b "/v2/r/tags/list"; b "/v2/r/tags/list/~p"].
+Proof. vm_compute. repeat split. Qed.
+
+Example C15_example_token_hypotheses :
+  cursor_ok ex_cu /\
+  (forall i base x, In x (map fst ex_L) ->
+     contains c_gt (ex_render_tok i base (link_target ex_ds ex_cu ex_npath i base x)) = false) /\
+  (forall i base x, In x (map fst ex_L) ->
+     ex_resolve_tok base (ex_render_tok i base (link_target ex_ds ex_cu ex_npath i base x)) = Some (link_target ex_ds ex_cu ex_npath i base x)).
+Proof. exact example_token_hypotheses. Qed.
 
 Example C15_example_referrers :
-  let t := loop (reg_serve KReferrers ex_L 2 ex_ds ex_render (fun _ => [])) ex_resolve
+  let t := loop (reg_serve KReferrers CLast (fun _ p => p) ex_L 2 ex_ds ex_render (fun _ => [])) ex_resolve
                 (fun _ => false) (ex_cfg KReferrers) 6 0 0
                 (mkUrl (b "/v2/r/referrers/d") (referrers_query (b "t1"))) [] in
   t_out t = Done /\ map fst (concat (t_pages t)) = [b "a"; b "c"; b "d"].
@@ -130,17 +133,18 @@ Print Assumptions C15_stops_on_error.
 Theorem C15_exactly_once_any_callback :
   forall (L : list item) (cap : nat) (ds : nat -> decision)
          (render : nat -> url -> url -> str) (trailer : nat -> str)
-         (resolve : url -> str -> option url) (c : cfg) (cb_fail : nat -> bool)
-         (path last0 : str) (fuel : nat),
+         (resolve : url -> str -> option url) (c : cfg) (cu : cursor) (npath : nat -> str -> str)
+         (cb_fail : nat -> bool) (path last0 : str) (fuel : nat),
+    cursor_ok cu ->
     c_kind c <> KReferrers ->
     NoDup (map fst L) -> (forall it, In it L -> fst it <> []) ->
     (forall i base x, In x (map fst L) ->
-       contains c_gt (render i base (link_target (ds i) base x)) = false) ->
+       contains c_gt (render i base (link_target ds cu npath i base x)) = false) ->
     (forall i base x, In x (map fst L) ->
-       resolve base (render i base (link_target (ds i) base x)) = Some (link_target (ds i) base x)) ->
+       resolve base (render i base (link_target ds cu npath i base x)) = Some (link_target ds cu npath i base x)) ->
     (forall i, (Z.of_N (d_doc_len (ds i)) <= eff_limit (c_limit c))%Z) ->
     (length (after last0 L) < fuel)%nat ->
-    let t := loop (reg_serve (c_kind c) L cap ds render trailer) resolve cb_fail c
+    let t := loop (reg_serve (c_kind c) cu npath L cap ds render trailer) resolve cb_fail c
                   fuel 0 0 (mkUrl path []) last0 in
     (t_out t = Done /\ concat (t_pages t) = after last0 L) \/
     (t_out t = ErrCallback /\ exists rest', after last0 L = concat (t_pages t) ++ rest').
@@ -196,15 +200,17 @@ Print Assumptions C15_limit.
 Theorem C15_limit_listing :
   forall (L : list item) (cap : nat) (ds : nat -> decision)
          (render : nat -> url -> url -> str) (trailer : nat -> str)
-         (resolve : url -> str -> option url) (c : cfg) (path last0 : str) (fuel : nat),
+         (resolve : url -> str -> option url) (c : cfg) (cu : cursor) (npath : nat -> str -> str)
+         (path last0 : str) (fuel : nat),
+    cursor_ok cu ->
     NoDup (map fst L) -> (forall it, In it L -> fst it <> []) ->
     (forall i base x, In x (map fst L) ->
-       contains c_gt (render i base (link_target (ds i) base x)) = false) ->
+       contains c_gt (render i base (link_target ds cu npath i base x)) = false) ->
     (forall i base x, In x (map fst L) ->
-       resolve base (render i base (link_target (ds i) base x)) = Some (link_target (ds i) base x)) ->
+       resolve base (render i base (link_target ds cu npath i base x)) = Some (link_target ds cu npath i base x)) ->
     (c_kind c = KReferrers -> forall i, qget k_at (d_extra (ds i)) = None) ->
     (length (start_rest c last0 L) < fuel)%nat ->
-    let t := loop (reg_serve (c_kind c) L cap ds render trailer) resolve (fun _ => false) c
+    let t := loop (reg_serve (c_kind c) cu npath L cap ds render trailer) resolve (fun _ => false) c
                   fuel 0 0 (mkUrl path (start_query c)) last0 in
     let fit := fun i => (Z.of_N (d_doc_len (ds i)) <= eff_limit (c_limit c))%Z in
     (t_out t = Done /\ concat (t_pages t) = view c (start_rest c last0 L) /\
@@ -302,17 +308,19 @@ Print Assumptions C15_referrers_callback_error.
 Theorem C15_referrers_unknown_with_api :
   forall (L : list item) (cap : nat) (ds : nat -> decision)
          (render : nat -> url -> url -> str) (trailer : nat -> str)
-         (resolve : url -> str -> option url) (c : cfg) (path : str) (fuel : nat) cbu ts,
+         (resolve : url -> str -> option url) (c : cfg) (cu : cursor) (npath : nat -> str -> str)
+         (path : str) (fuel : nat) cbu ts,
+    cursor_ok cu ->
     c_kind c = KReferrers ->
     NoDup (map fst L) -> (forall it, In it L -> fst it <> []) ->
     (forall i base x, In x (map fst L) ->
-       contains c_gt (render i base (link_target (ds i) base x)) = false) ->
+       contains c_gt (render i base (link_target ds cu npath i base x)) = false) ->
     (forall i base x, In x (map fst L) ->
-       resolve base (render i base (link_target (ds i) base x)) = Some (link_target (ds i) base x)) ->
+       resolve base (render i base (link_target ds cu npath i base x)) = Some (link_target ds cu npath i base x)) ->
     (forall i, (Z.of_N (d_doc_len (ds i)) <= eff_limit (c_limit c))%Z) ->
     (forall i, qget k_at (d_extra (ds i)) = None) ->
     (length L < fuel)%nat ->
-    let api := loop (reg_serve KReferrers L cap ds render trailer) resolve (fun _ => false) c
+    let api := loop (reg_serve KReferrers cu npath L cap ds render trailer) resolve (fun _ => false) c
                     fuel 0 0 (mkUrl path (referrers_query (c_at c))) [] in
     let w := referrers_wrap RUnknown cbu api ts in
     w_out w = Done /\ concat (w_pages w) = filter_referrers L (c_at c) /\
@@ -339,7 +347,7 @@ Print Assumptions C15_referrers_unknown_without_api.
    class was swallowed, the tag schema run, a referrer delivered twice, success returned *)
 Theorem C15_referrers_fallback_refuted :
   exists (cb_fail : nat -> bool),
-    let api := loop (reg_serve KReferrers wit_L 5 wit_ds wit_render (fun _ => [])) wit_resolve
+    let api := loop (reg_serve KReferrers CLast (fun _ p => p) wit_L 5 wit_ds wit_render (fun _ => [])) wit_resolve
                     cb_fail wit_cfg 9 0 0 wit_u [] in
     let w := referrers_wrap_prefix RUnknown true api (wit_ts cb_fail) in
     t_out api = ErrCallback /\ w_out w = Done /\ w_state w = RUnsupported /\
@@ -430,20 +438,8 @@ Print Assumptions C15_last_on_sorted_registry.
 
 (* ---------- further examples ---------- *)
 
-(* a toy stream decoder: the value is everything up to the first '}' *)
-Fixpoint ex_decode (s : str) : option str :=
-  match s with
-  | [] => None
-  | ch :: s' => if ch =? 125 then Some [ch]
-               else match ex_decode s' with Some v => Some (ch :: v) | None => None end
-  end.
-
 Example C15_example_document : is_document str ex_decode (b "{ab}") (b "{ab}").
-Proof.
-  split.
-  - intro tail. reflexivity.
-  - intros k H. simpl in H. do 4 (destruct k as [|k]; [reflexivity|]). lia.
-Qed.
+Proof. exact example_document. Qed.
 
 Example C15_example_limit_bytes :
   ex_decode (seen 4 (b "{ab}" ++ b "  ")) = Some (b "{ab}") /\ ex_decode (seen 3 (b "{ab}" ++ b "  ")) = None.
@@ -456,7 +452,7 @@ Example C15_example_oci_tags :
 Proof. reflexivity. Qed.
 
 Example C15_example_stops :
-  let t := loop (reg_serve KTags ex_L 1 ex_ds ex_render (fun _ => [])) ex_resolve
+  let t := loop (reg_serve KTags CLast (fun _ p => p) ex_L 1 ex_ds ex_render (fun _ => [])) ex_resolve
                 (fun k => (k =? 1)%nat) (ex_cfg KTags) 9 0 0 (mkUrl (b "/v2/r/tags/list") []) [] in
   t_out t = ErrCallback /\ map (map fst) (t_pages t) = [[b "a"]; [b "b"]] /\ length (t_reqs t) = 2%nat.
 Proof. vm_compute. repeat split. Qed.
@@ -464,7 +460,7 @@ Proof. vm_compute. repeat split. Qed.
 (* a document over the limit on the second page: one whole page delivered, then ErrDecode *)
 Example C15_example_limit_listing :
   let ds := fun i => mkDec 1 [] false [] [] (if (i =? 1)%nat then 101 else 100) 0 in
-  let t := loop (reg_serve KTags ex_L 1 ds ex_render (fun _ => [])) ex_resolve
+  let t := loop (reg_serve KTags CLast (fun _ p => p) ex_L 1 ds ex_render (fun _ => [])) ex_resolve
                 (fun _ => false) (ex_cfg KTags) 9 0 0 (mkUrl (b "/v2/r/tags/list") []) [] in
   t_out t = ErrDecode /\ map (map fst) (t_pages t) = [[b "a"]] /\ length (t_reqs t) = 2%nat.
 Proof. vm_compute. repeat split. Qed.
